@@ -29,7 +29,78 @@ def bind_repo():
         raise SystemExit(f"HARNESS-ERROR: checkpoint_schedules imported from {f}, "
                          f"not from {REPO}")
     warnings.filterwarnings("ignore", message="Numba not available")
+    _record_empty_tables()
     return checkpoint_schedules
+
+
+_EMPTY_TABLES = None
+
+
+def _lib_modules():
+    return [m for k, m in sorted(sys.modules.items())
+            if (k == "checkpoint_schedules"
+                or k.startswith("checkpoint_schedules.")) and m is not None]
+
+
+def _record_empty_tables():
+    """Module-level dicts of the library that are empty right after import:
+    the only module-level containers reset_lib_memos() may empty again (a
+    table with pre-seeded entries is never touched)."""
+    global _EMPTY_TABLES
+    if _EMPTY_TABLES is not None:
+        return
+    _EMPTY_TABLES = []
+    for m in _lib_modules():
+        for k, v in list(vars(m).items()):
+            if type(v) is dict and not v and not k.startswith("__"):
+                _EMPTY_TABLES.append((m.__name__, k))
+
+
+def reset_lib_memos():
+    """Bring every memo table of the library that can be found back to its
+    state at import: functools caches (`cache_clear`), dicts in the closure of
+    a module-level function (the repo's `cache_step` decorator) and
+    module-level dicts that were empty at import.  Purely an aid to vary the
+    fill order between executions: if the implementation keeps its tables
+    elsewhere nothing happens and the checks only lose that variation.
+    Returns the number of tables emptied."""
+    import types
+    n = 0
+    seen = set()
+    for m in _lib_modules():
+        for k, f in list(vars(m).items()):
+            if id(f) in seen:
+                continue
+            seen.add(id(f))
+            if not callable(f) or isinstance(f, type):
+                continue
+            if getattr(f, "__module__", None) is None or \
+                    not str(f.__module__).startswith("checkpoint_schedules"):
+                continue
+            cc = getattr(f, "cache_clear", None)
+            if callable(cc):
+                try:
+                    cc()
+                    n += 1
+                except Exception:  # noqa: BLE001
+                    pass
+            if isinstance(f, types.FunctionType):
+                for cell in (f.__closure__ or ()):
+                    try:
+                        v = cell.cell_contents
+                    except ValueError:
+                        continue
+                    if type(v) is dict and id(v) not in seen:
+                        seen.add(id(v))
+                        v.clear()
+                        n += 1
+    for mn, k in (_EMPTY_TABLES or ()):
+        v = getattr(sys.modules.get(mn), k, None)
+        if type(v) is dict and id(v) not in seen:
+            seen.add(id(v))
+            v.clear()
+            n += 1
+    return n
 
 
 def repo_mod(name):
